@@ -116,7 +116,7 @@ class ExprGen:
                 k = r.choice(["num", "num", "str"])
                 e = self.sub(depth, k) + self.sp() + r.choice(OPS_COND if k == "num" else ["==", "!=", "<", ">="]) + self.sp() + self.sub(depth, k)
             elif x < 0.85:
-                e = "!" + self.sp(0.1) + "(" + self.gen(depth - 1, "bool") + ")"
+                e = "!" + self.sp(0.05) + "(" + self.gen(depth - 1, "bool") + ")"
             else:
                 e = self.leaf("bool")
         elif kind == "str":
@@ -160,7 +160,7 @@ class Node:
     __slots__ = ("text", "kids", "quoted")
 
     def __init__(self, text, kids=None, quoted=False):
-        self.text = text
+        self.text = text.replace("\n", " ").lstrip() or "PASS"
         self.kids = kids
         self.quoted = quoted   # children are raw strings between triple quotes
 
